@@ -42,7 +42,7 @@ def one_workload(ctx, idx, memkb, scratch, depth, torn, nest_every):
         memkb = 64
     if ctx.prop in ("C01", "C02") and idx % 6 == 4:
         # a heap of ~40 pages in 16 frames and one transaction that marks rows on all of them: undo (abort, recovery) and
-        # commit of a transaction that touched more pages than the pool holds
+        # commit of a transaction that touched more pages than the pool holds (only the key column is indexed there)
         env["VERIF_CRASH_MODE"] = "wide"
         memkb = 64
         depth = 0   # (recovery of this workload writes ~60 pages; crash points inside it are C20's business, on the other workloads)
